@@ -5,9 +5,9 @@ CONSTANTS
   MaxRead = 4
   Unit = FALSE
   Variant = "fixed"
-  MaxCalls = 4
-  AllocFail = FALSE
+  MaxCalls = 3
+  AllocFail = TRUE
   Trunc = {9}
-INVARIANTS NoReleaseBeforeVerify HistoryIndependence SequentialPrefix NoSilentTruncation
+INVARIANTS NoReleaseBeforeVerify SequentialPrefix NoSilentTruncation
 PROPERTY EveryCallReturns
 CHECK_DEADLOCK FALSE
